@@ -50,11 +50,20 @@ def scale():
     return st.tuples(st.sampled_from([1, -1]), st.integers(-3, 3), st.sampled_from([1, 3, 5])).map(list)
 
 
+def _valid_scale(s):
+    from .runner import Skip
+
+    if len(s) != 3 or s[0] not in (1, -1) or s[2] not in (1, 3, 5) or not -3 <= s[1] <= 3:
+        raise Skip("invalid scale (only reachable through case reduction)")
+
+
 def scale_value(s):
+    _valid_scale(s)
     return s[0] * (2.0 ** s[1]) * s[2]
 
 
 def scale_frac(s):
+    _valid_scale(s)
     return Fraction(s[0] * s[2]) * (Fraction(2) ** s[1])
 
 
